@@ -297,6 +297,7 @@ func (p prop) Drive(d *core.Driver) error {
 			TmplSyntax: rest * 10 / 100,
 			Deep:       n * d.N(40, 1500) / total,
 			Amp:        n * d.N(70, 3000) / total,
+			Wide:       n * d.N(40, 1500) / total,
 			// while the unbounded-recursion finding is open the generator stays below
 			// the depth at which the 64 MiB stacks of the workers overflow
 			MaxDepth: d.N(1500, safeNesting),
@@ -382,7 +383,7 @@ func hugeArray(in *bytesgen.Input) bool {
 	return false
 }
 
-// stackScope is the class of open finding C04-F36: the parser, the type checker
+// stackScope is the class of open finding C04-F42: the parser, the type checker
 // and the emitter recurse without bound on nested sources and the goroutine stack
 // overflows (fatal, not recoverable). safeNesting is the depth the generator stays
 // below while the finding is open (with the 64 MiB stacks of the workers every
